@@ -92,6 +92,9 @@ def ev(fn, n, atom=None, depth=0):
     if atom is not None:
         v = atom(n)
         if v is not None:
+            # an atom supplies a bit pattern: read it through the node's integer type (signedness!)
+            if n.t and not n.t.rstrip().endswith("*") and type_info(n.t) is not None:
+                return wrap(v, n.t)
             return v
         # a stripped branch condition is the bare lvalue: ask about the load that wraps it
         p = n.parent
